@@ -571,7 +571,39 @@ def rule_session_names(ctx):
                           f"the status message is built as `{tagof(last)[:80]}`: an unquoted object name must be reported in upper case")
 
 
+def rule_names_in_literals(ctx):
+    """C02.h: where fakesnow compares an object name as a string literal ('{name}' in a generated statement), the hole is
+    the name's text, not a rendered identifier node: rendering adds the double quotes of a quoted identifier, so "S1" would be
+    looked up as '"S1"' while s1 / S1 find the same schema."""
+    from .common import all_kinds, sql_root, text_of
+
+    prog = ctx.prog
+    n = 0
+    pat = re.compile(r"'[^'{}]*\{(sql|str)\(([^{}]*)\)\}")
+    for kind in all_kinds():
+        for tr in traces(prog, kind):
+            if tr.path.outcome != "return":
+                continue
+            for sqlv in tr.engine_sql:
+                k, root = sql_root(sqlv)
+                txt = text_of(sqlv) if k == "text" else text_of(getattr(root, "parsed_from", None)) if k == "node" and getattr(root, "parsed_from", None) is not None else ""
+                if "'" not in txt:
+                    continue
+                n += 1
+                m = pat.search(txt)
+                bad = m is not None and ("id:" in m.group(2) or "tbl:" in m.group(2))
+                ctx.ob("C02.h", f"{kind}: names inside string literals of the generated statement are texts, not rendered identifiers", not bad,
+                       "fakesnow/transforms.py", "" if not bad else m.group(0)[-60:])
+                if bad:
+                    ctx.violation("C02.h", "transforms", "<stage>", f"{kind}: rendered identifier `{m.group(2)}` inside a string literal", "fakesnow/transforms.py",
+                                  f"the statement generated for {kind} compares a name as the string literal `...{m.group(0)[-50:]}'`: the hole is a "
+                                  f"rendered identifier node, so a double-quoted name is compared with its quotes (`'\"S1\"'`) and finds nothing, "
+                                  f"while the unquoted spelling of the same object is found")
+    ctx.floor("C02.h generated statements with string literals", n, 20)
+
+
 RULES = [
+    ("C02.h", rule_names_in_literals, ("quick", "thorough")),
     ("C02.a", rule_fold_first, ("quick", "thorough")),
     ("C02.b", rule_fold_closure, ("quick", "thorough")),
     ("C02.c", rule_keyword_compare, ("quick", "thorough")),
